@@ -5,7 +5,7 @@ From Coq Require Import ZArith Reals List Bool Lra.
 From Flocq Require Import Core.
 From Rubato.Model Require Import Num Reals Base Async.
 From Rubato.Gen Require Import FastGen SincGen.
-From Rubato.Proofs Require Import StepperR RampsR.
+From Rubato.Proofs Require Import StepperR RampsR MalformedP FastInR SincInR.
 Import ListNotations.
 Local Open Scope R_scope.
 
@@ -100,7 +100,31 @@ Proof.
   unfold step_k, Rmin, Rmax in H. cbn [INR] in H. destruct (Rle_dec 1 (1/2)); lra.
 Qed.
 
+(** A non-ramped change takes effect from the first frame of the next chunk and nothing is skipped or repeated
+    (FastFixedIn, every degree): after an accepted step to a compatible ratio (outside the two recorded defect
+    classes) the call evaluates exactly n frames, spaced 1/new from the first one, and the carried position is
+    exactly  old position + n/new - chunk_size  -- the next call continues where this one stopped. *)
+Theorem C06_fast_in_step_call_R : forall d rc (s : @astate CR SR (@FastFixedIn CR)) wi wo m,
+  fi_wfs d rc s -> a_precheck (@fi_arch CR SR d) s wi wo m = Ok tt ->
+  exists (s' : @astate CR SR (@FastFixedIn CR)) (n : Z) outs,
+    pib (@fi_arch CR SR d) s wi wo m = Ok (s', (Cz s, n), outs) /\ fi_wf s' /\
+    (0 <= n <= @fi_needed_len CR (as_ctl s))%Z /\
+    li s' = li s + IZR n * / FastInR.ratio s - IZR (Cz s) /\
+    Cz s' = Cz s /\ nchz s' = nchz s /\ FastInR.ratio s' = FastInR.ratio s.
+Proof. exact fi_call_step_R. Qed.
+
+Theorem C06_sinc_in_step_call_R : forall env rc (s : @astate CR SR (@SincFixedIn CR)) wi wo m,
+  si_wfs env rc s -> a_precheck (@si_arch CR SR env) s wi wo m = Ok tt ->
+  exists (s' : @astate CR SR (@SincFixedIn CR)) (n : Z) outs,
+    pib (@si_arch CR SR env) s wi wo m = Ok (s', (sC s, n), outs) /\ si_wf env s' /\
+    (0 <= n <= @si_calc_needed_len CR (as_ctl s))%Z /\
+    sli s' = sli s + IZR n * / sratio s - IZR (sC s) /\
+    sC s' = sC s /\ sCmax s' = sCmax s /\ sratio s' = sratio s /\ sL s' = sL s.
+Proof. exact si_call_step_R. Qed.
+
 Print Assumptions C06_instants_fixed_in_R.
+Print Assumptions C06_sinc_in_step_call_R.
+Print Assumptions C06_fast_in_step_call_R.
 Print Assumptions C06_increment_fixed_in_R.
 Print Assumptions C06_ramp_interval_R.
 Print Assumptions C06_ramp_monotone_R.
